@@ -3,11 +3,13 @@ package main
 // Specifications of what imp.go translates: per package the record types (Go struct -> Coq record of the model),
 // and per function the Coq binders.  Everything else comes from the Go source.
 
-var dequeRec = recSpec{ctor: "mkDeque", fields: []recField{
-	{"a", "arr", "optslice"}, {"front", "front", "int"}, {"back", "back", "int"}, {"gen", "gen", "int"}}}
+var dequeRec = recSpec{ctor: "mkDeque", goType: "Deque", fields: []recField{
+	{goName: "a", coqName: "arr", kind: "optslice"}, {goName: "front", coqName: "front", kind: "int"},
+	{goName: "back", coqName: "back", kind: "int"}, {goName: "gen", coqName: "gen", kind: "int"}}}
 
-var dequeIterRec = recSpec{ctor: "mkIter", fields: []recField{
-	{"d", "", "skip"}, {"i", "it_i", "int"}, {"done", "it_done", "bool"}, {"gen", "it_gen", "int"}}}
+var dequeIterRec = recSpec{ctor: "mkIter", goType: "dequeIterator", fields: []recField{
+	{goName: "d", kind: "skip"}, {goName: "i", coqName: "it_i", kind: "int"},
+	{goName: "done", coqName: "it_done", kind: "bool"}, {goName: "gen", coqName: "it_gen", kind: "int"}}}
 
 var dequePanics = map[string]string{
 	"errDequeEmpty":    "PEmpty",
@@ -46,4 +48,46 @@ var impDeque = impPkg{
 	},
 }
 
-var impPkgs = []*impPkg{&impDeque}
+// internal/heap: the record carries the slice, the generation and the state the indexChanged callback closes over
+var heapRec = recSpec{ctor: "mkHeap", goType: "Heap", fields: []recField{
+	{goName: "lessFn", kind: "skip"}, {goName: "indexChanged", kind: "skip"},
+	{goName: "a", coqName: "ha", kind: "slice"}, {goName: "gen", coqName: "hgen", kind: "int"},
+	{goName: "", coqName: "hs", kind: "state", def: "s0"}}}
+
+const heapFile = "internal/heap/heap.go"
+
+var impHeap = impPkg{
+	out:     "ImpHeap.v",
+	imports: "From Juniper Require Import Common.Base Heap.Model Translated.GoImp.",
+	section: "Context {T IS : Type} (zero : T) (less : T -> T -> bool) (on_index : T -> Z -> IS -> IS).",
+	recs:    map[string]recSpec{"heap T IS": heapRec},
+	pureCalls: map[string]string{
+		"h.lessFn": "less",
+	},
+	effectCalls: map[string][2]string{
+		"h.indexChanged": {"hs", "on_index"},
+	},
+	fns: []impFn{
+		{file: heapFile, name: "parent", coqName: "gi_heap_parent", binders: "(i : Z)", retTy: "Z", safe: true},
+		{file: heapFile, name: "children", coqName: "gi_heap_children", binders: "(i : Z)", retTy: "Z * Z", safe: true},
+		{file: heapFile, recv: "Heap", name: "Len", coqName: "gi_Heap_Len", recvRec: "heap T IS", retTy: "Z", safe: true},
+		{file: heapFile, recv: "Heap", name: "notifyIndexChanged", coqName: "gi_Heap_notify", recvRec: "heap T IS", mut: true, binders: "(i : Z)"},
+		{file: heapFile, recv: "Heap", name: "less", coqName: "gi_Heap_less", recvRec: "heap T IS", binders: "(i j : Z)", retTy: "bool"},
+		{file: heapFile, recv: "Heap", name: "swap", coqName: "gi_Heap_swap", recvRec: "heap T IS", mut: true, binders: "(i j : Z)"},
+		{file: heapFile, recv: "Heap", name: "percolateUp", coqName: "gi_Heap_percolateUp", recvRec: "heap T IS", mut: true, binders: "(i : Z)",
+			fuel: "(S (length (ha h)))"},
+		{file: heapFile, recv: "Heap", name: "percolateDown", coqName: "gi_Heap_percolateDown", recvRec: "heap T IS", mut: true, binders: "(i : Z)",
+			fuel: "(S (S (length (ha h))))"},
+		{file: heapFile, name: "New", coqName: "gi_Heap_New", recvRec: "heap T IS", mut: true, stateVars: []string{"h"},
+			binders: "(initial : list T) (s0 : IS)", fuel: "(S (length initial))",
+			rewrite: map[string]string{"less": "tt", "indexChanged": "tt"}},
+		{file: heapFile, recv: "Heap", name: "Push", coqName: "gi_Heap_Push", recvRec: "heap T IS", mut: true, binders: "(item : T)"},
+		{file: heapFile, recv: "Heap", name: "Pop", coqName: "gi_Heap_Pop", recvRec: "heap T IS", mut: true, retTy: "T"},
+		{file: heapFile, recv: "Heap", name: "Peek", coqName: "gi_Heap_Peek", recvRec: "heap T IS", retTy: "T"},
+		{file: heapFile, recv: "Heap", name: "RemoveAt", coqName: "gi_Heap_RemoveAt", recvRec: "heap T IS", mut: true, binders: "(i : Z)"},
+		{file: heapFile, recv: "Heap", name: "Item", coqName: "gi_Heap_Item", recvRec: "heap T IS", binders: "(i : Z)", retTy: "T"},
+		{file: heapFile, recv: "Heap", name: "UpdateAt", coqName: "gi_Heap_UpdateAt", recvRec: "heap T IS", mut: true, binders: "(i : Z) (item : T)"},
+	},
+}
+
+var impPkgs = []*impPkg{&impDeque, &impHeap}
